@@ -8,8 +8,28 @@ check("C12", "model_checking",
       "TLA+ contract + exhaustive TLC model, TLC-exported cases replayed on the code, TLC trace validation of real runs",
       "DESIGN.md section 7 (C12)")
 
+ATTACK_NOTE = ("trusts testing/synctest virtual time (go1.26.8) and the harness's pacer/targeter/transport/consumer doubles; events at one "
+               "instant race for real and the contract accepts any order; Stop stress and worker scheduling are real-time (probabilistic)")
+ATTACK_TECH = "TLA+ contract monitor + exhaustive TLC model of the attack loop (refinement via monitor), TLC-exported scripts replayed in synctest bubbles, TLC trace validation"
+check("C02", "model_checking",
+      "Attack.tla (one action per channel operation / critical section of Attacker.Attack, Stop, attack, hit) is explored exhaustively by TLC "
+      "for every (workers, max-workers) pair up to 3, two concurrent Stop callers, targeter failure, durations, pacer stop, slow consumers; "
+      "the AttackContract monitor (SeqExact, CloseOnce/CloseAfterAll, OneInitiator, NoLeak, Ends) runs beside it and never rejects, the "
+      "liveness clause holds under fairness and the historic two-step Stop is shown to violate it. The real Attacker then runs thousands of "
+      "TLC-exported and random timed scripts in virtual time plus a real-time Stop stress; every recorded run is validated by TLC against the contract.",
+      ATTACK_NOTE, ATTACK_TECH, "DESIGN.md section 5 (C02), Appendix A")
+check("C03", "model_checking",
+      "Same model and bubbles as C02, validated against the Cap and Eager clauses: in-flight (targeter calls minus results taken) never "
+      "exceeds max-workers at any settled instant (one-event slack between), and a released hit whose wait is over has started unless all "
+      "capacity is busy; scripts biased to slow transports/consumers and initial workers below/at/above the maximum.",
+      ATTACK_NOTE, ATTACK_TECH, "DESIGN.md section 5 (C03), Appendix A")
+check("C04", "model_checking",
+      "Same model and bubbles, validated against PaceArgs (hits = 0,1,2,.., elapsed exact and non-decreasing), ObeyWait (no start before the "
+      "wait returned for it), Deadline (never consulted after the duration), PacerStop and Ends; adversarial scripted pacers and durations.",
+      ATTACK_NOTE, ATTACK_TECH, "DESIGN.md section 4 (C04), Appendix A")
+
 UNDER = "check under construction in this round (specification and driver not committed yet)"
-for p in ["C01", "C02", "C03", "C04", "C05", "C06", "C07", "C08", "C09", "C10", "C11", "C13", "C14", "C15", "C17", "C18", "C19", "C20"]:
+for p in ["C01", "C05", "C06", "C07", "C08", "C09", "C10", "C11", "C13", "C14", "C15", "C17", "C18", "C19", "C20"]:
     NA[p] = UNDER
 NA["C16"] = ("arbitrary-byte crash/hang freedom of parsers has no abstract state machine to specify; deciding it means fuzzing, "
              "a different technique (DESIGN.md section 9)")
